@@ -194,7 +194,37 @@ func (c *compiler) evalUserFunction(node *userFunction, args []ast.Expression) (
 		c.ctx.Set(p.Value, vals[i])
 	}
 
-	return c.evalBlockStatement(node.Block)
+	res, err := c.evalBlockStatement(node.Block)
+	if err != nil {
+		return nil, err
+	}
+
+	if ro, ok := res.(returnObject); ok {
+		// a return stops at the call: its value is the value that was
+		// returned (preceded by what the body had already produced), not
+		// the control-flow object that carried it out of the body
+		vals := flattenReturn(ro, nil)
+		switch len(vals) {
+		case 0:
+			return nil, nil
+		case 1:
+			return vals[0], nil
+		}
+		return vals, nil
+	}
+
+	return res, nil
+}
+
+func flattenReturn(ro returnObject, vals []interface{}) []interface{} {
+	for _, v := range ro.Value {
+		if inner, ok := v.(returnObject); ok {
+			vals = flattenReturn(inner, vals)
+			continue
+		}
+		vals = append(vals, v)
+	}
+	return vals
 }
 
 func (c *compiler) evalFunctionLiteral(node *ast.FunctionLiteral) (interface{}, error) {
